@@ -5,10 +5,9 @@ mod c07;
 mod c09;
 mod c11;
 mod c12;
-mod aio;
-mod drive;
 mod spaces;
 
+pub use vdrive::{aio, drive};
 use vcore::report::{install_silent_panic_hook, Args};
 
 #[global_allocator]
